@@ -90,7 +90,8 @@ def main(p):
                 req = {'v': 'x'}
             else:   # collision
                 probelib.fill_all(exp, 2, 0)
-                req = None
+                # the caller's request as a dict written with the python field names (rejected if a field has the wrong type)
+                req = probelib.native(exp) if cell.get('dict_request') else None
         except BaseException as e:
             fail(cell, '-', 'harness-request', probelib.exc_info(e))
             continue
@@ -186,6 +187,8 @@ def main(p):
                 got, bi, qkeys = http.reconstruct(Dreq, http.bindings_of(rule), e['verb'], e['url'], e['body'], False)
                 if http.normalize(got) != http.normalize(exp):
                     fail(cell, 'rest', 'request-mismatch', f'{probelib.short(got)!r} != {probelib.short(exp)!r} | {e["verb"]} {e["url"]} {e["body"]!r}')
+                elif pos.startswith('required-query') and Dreq.DESCRIPTOR.fields_by_name[w].json_name not in qkeys:
+                    fail(cell, 'rest', 'required-default-missing', f'REQUIRED field {w} is not among the query parameters {qkeys} | {e["url"]}')
                 else:
                     ok('ok-rest')
             except http.Mismatch as mm:
